@@ -30,4 +30,60 @@ let () = each_line (fun line ->
       (String.concat "," (List.map name (take shown sched)))
       (String.concat "|" (List.map (fun e -> String.concat "" (List.map name e)) ens))
       (String.concat ";" got) (if fin then 1 else 0) (String.concat "" (List.map name (enabled s)))
+  | ["CHAIN"; blocks; per; stages; n; seed] ->
+    (* the chain model under a seed-driven schedule: source + stage workers + sink + recycler *)
+    let b = int_of_string blocks and per = int_of_string per and n = int_of_string n in
+    let rec blocks_of i acc cur k = if i > n then List.rev (if cur = [] then acc else List.rev cur :: acc)
+      else if k = per then blocks_of i (List.rev cur :: acc) [] 0 else blocks_of (i + 1) acc (nat_of_int i :: cur) (k + 1) in
+    let payloads = blocks_of 1 [] [] 0 in
+    let stage s = let k = if String.length s > 1 then int_of_string (String.sub s 1 (String.length s - 1)) else 0 in
+      match s.[0] with
+      | 'a' -> List.map (fun x -> nat_of_int (int_of_nat x + k))
+      | 'f' -> List.filter (fun x -> int_of_nat x mod k <> 0)
+      | _ -> (fun p -> p) in
+    let fs = (if stages = "-" then [] else List.map stage (String.split_on_char ',' stages)) @ [(fun p -> p); (fun p -> p)] in
+    let nw = List.length fs in
+    let st = ref (int_of_string seed land 0x3fffffff) in
+    let rnd k = st := (!st * 1103515245 + 12345) land 0x3fffffff; (!st lsr 8) mod k in
+    let c = ref (chain_init (nat_of_int b) payloads fs) in
+    let status = ref "" in
+    let fuel = ref (100000 + 40 * (n + 2) * (nw + 2)) in
+    while !status = "" do
+      if !c.mainp = MDone then status := "ok"
+      else begin
+        let cands = TSrc :: TMain :: List.init nw (fun i -> TW (nat_of_int i)) in
+        let en = List.filter_map (fun t -> match chain_step (nat_of_int b) !c t with Some c' -> Some c' | None -> None) cands in
+        if en = [] then status := (if !c.mainp = MAbort then "abort" else "deadlock")
+        else if !fuel = 0 then status := "out-of-fuel"
+        else begin decr fuel; c := List.nth en (rnd (List.length en)) end
+      end
+    done;
+    let out = List.map int_of_nat (List.concat (sink_seen !c)) in
+    let h = ref 0x14650FB0739D0383L in   (* same multiplicative hash as the C++ driver, 64 bit *)
+    List.iter (fun v -> h := Int64.mul (Int64.logxor !h (Int64.of_int v)) 0x100000001b3L) out;
+    let rec take k l = if k = 0 then [] else match l with [] -> [] | x :: r -> x :: take (k - 1) r in
+    Printf.sprintf "%s count=%d hash=%Lx head=%s" !status (List.length out) !h
+      (if out = [] then "-" else String.concat "," (List.map string_of_int (take 8 out)))
+  | ["POOL"; workers; queue; n; seed] ->
+    let w = int_of_string workers and cap = int_of_string queue and n = int_of_string n in
+    let st = ref (int_of_string seed land 0x3fffffff) in
+    let rnd k = st := (!st * 1103515245 + 12345) land 0x3fffffff; (!st lsr 8) mod k in
+    let s = ref (pool_init (List.init n nat_of_int) (nat_of_int w)) in
+    let status = ref "" in
+    while !status = "" do
+      if pool_finished !s then status := "ok"
+      else begin
+        let cands = Main :: List.init w (fun j -> Wk (nat_of_int j)) in
+        let en = List.filter_map (fun t -> pool_step (nat_of_int cap) !s t) cands in
+        if en = [] then status := "deadlock" else s := List.nth en (rnd (List.length en))
+      end
+    done;
+    let h = List.sort compare (List.map (fun (_, r) -> int_of_nat r) !s.handled) in
+    let dup = ref 0 and miss = ref 0 in
+    for i = 0 to n - 1 do
+      let c = List.length (List.filter (fun x -> x = i) h) in
+      if c = 0 then incr miss else dup := !dup + c - 1
+    done;
+    Printf.sprintf "%s handled=%d dup=%d miss=%d stray=%d" !status (List.length h) !dup !miss
+      (List.length (List.filter (fun x -> x < 0 || x >= n) h))
   | _ -> "unsupported-case")
